@@ -5,6 +5,7 @@ here parses or copies repository code.
 """
 import itertools
 import math
+import os
 import time
 from fractions import Fraction
 
@@ -171,29 +172,45 @@ class Ctx:
         self.pending = []  # decision prefixes still to explore
         self.obligations = []
         self.events = []  # ghost events (mutation sites, positional dependence, ...)
+        self.memo = {}
         self.solver_time = 0.0
         self.base_axioms = list(PI_AXIOMS)
         self.label = ""
+        self._solver = z3.Solver()
 
     def start_path(self, prefix):
         self.prefix = list(prefix)
         self.trace = []
         self.pc = []
         self.events = []
-
-    # -- feasibility
-    def _sat(self, extra):
-        s = z3.Solver()
-        s.set("timeout", 3000)
+        self.memo = {}
+        self._solver = z3.Solver()
+        self._solver.set("timeout", 1500)
         for a in self.base_axioms:
-            s.add(a)
-        for a in self.pc:
-            s.add(a)
+            self._solver.add(a)
+
+    # -- feasibility (one incremental solver per path)
+    def _sat(self, extra):
+        s = self._solver
+        s.push()
         s.add(extra)
         t0 = time.time()
         r = s.check()
         self.solver_time += time.time() - t0
+        s.pop()
         return r
+
+    def entails(self, cond):
+        """is cond implied by the current path condition (unknown -> False)"""
+        if cond is True:
+            return True
+        if cond is False:
+            return False
+        return self._sat(z3.Not(cond)) == z3.unsat
+
+    def _push_pc(self, f):
+        self.pc.append(f)
+        self._solver.add(f)
 
     def decide(self, cond):
         """Branch on a symbolic condition (called from Sym.__bool__)."""
@@ -209,20 +226,17 @@ class Ctx:
             val = self.prefix[k]
         else:
             rt = self._sat(cond)
-            rf = self._sat(z3.Not(cond))
-            can_t = rt != z3.unsat
-            can_f = rf != z3.unsat
-            if can_t and can_f:
-                val = True
-                self.pending.append(self.trace + [False])
-            elif can_t:
-                val = True
-            elif can_f:
+            if rt == z3.unsat:
                 val = False
             else:
-                raise Infeasible()
+                rf = self._sat(z3.Not(cond))
+                if rf == z3.unsat:
+                    val = True
+                else:
+                    val = True
+                    self.pending.append(self.trace + [False])
         self.trace.append(val)
-        self.pc.append(cond if val else z3.Not(cond))
+        self._push_pc(cond if val else z3.Not(cond))
         return val
 
     def assume(self, cond):
@@ -230,7 +244,7 @@ class Ctx:
             return
         if cond is False:
             raise Infeasible()
-        self.pc.append(cond)
+        self._push_pc(cond)
 
     def oblige(self, name, goal, kind="post", meta=None):
         goal = to_z3_bool(goal)
@@ -693,6 +707,8 @@ def cast(a, dt):
 def dtype_kind(dt):
     if dt is None:
         return None
+    if hasattr(dt, "__dtype_kind__"):
+        return dt.__dtype_kind__
     if dt in (float, "float", "float32", "float64", "f4", "f8", "double"):
         return "f"
     if dt in (int, "int", "int16", "int32", "int64", "i4", "i8", "i2"):
@@ -771,12 +787,32 @@ def _is_numeral(t):
 
 
 class _Mono:
-    __slots__ = ("coef", "facs", "extra")
+    __slots__ = ("coef", "facs", "extra", "delta")
 
-    def __init__(self, coef, facs, extra):
+    def __init__(self, coef, facs, extra, delta=()):
         self.coef = coef  # z3 real term free of bound vars
         self.facs = facs  # list of z3 real terms depending on bound vars
         self.extra = extra  # extra bound vars [(var, lo, hi)]
+        self.delta = list(delta)  # Kronecker deltas [(bound var, bound-free index term)]
+
+
+def _neg(m):
+    return _Mono(-m.coef, m.facs, m.extra, m.delta)
+
+
+def _delta_cond(c, bset, cache):
+    """recognise  v == t  /  t == v  (v a bound variable, t free of bound variables);
+    returns (v, t, positive)"""
+    pos = True
+    if z3.is_not(c):
+        c = c.arg(0)
+        pos = False
+    if z3.is_eq(c) and c.arg(0).sort() == _I:
+        a, b = c.arg(0), c.arg(1)
+        for v, t in ((a, b), (b, a)):
+            if z3.is_const(v) and v.get_id() in bset and not _contains(t, bset, cache):
+                return v, t, pos
+    return None
 
 
 def _poly(t, bset, cache, depth=0):
@@ -796,10 +832,24 @@ def _poly(t, bset, cache, depth=0):
         if k == z3.Z3_OP_SUB:
             out = _poly(ch[0], bset, cache, depth + 1)
             for c in ch[1:]:
-                out += [_Mono(-m.coef, m.facs, m.extra) for m in _poly(c, bset, cache, depth + 1)]
+                out += [_neg(m) for m in _poly(c, bset, cache, depth + 1)]
             return out
         if k == z3.Z3_OP_UMINUS:
-            return [_Mono(-m.coef, m.facs, m.extra) for m in _poly(ch[0], bset, cache, depth + 1)]
+            return [_neg(m) for m in _poly(ch[0], bset, cache, depth + 1)]
+        if k == z3.Z3_OP_ITE:
+            dc = _delta_cond(ch[0], bset, cache)
+            if dc is not None:
+                v, t, pos = dc
+                a, b = (ch[1], ch[2]) if pos else (ch[2], ch[1])
+                # If(v == t, a, b) = b + [v == t] * (a - b)        (WS.sum_delta)
+                pa = _poly(a, bset, cache, depth + 1)
+                pb = _poly(b, bset, cache, depth + 1)
+                out = list(pb)
+                for m in pa:
+                    out.append(_Mono(m.coef, m.facs, m.extra, m.delta + [(v, t)]))
+                for m in pb:
+                    out.append(_Mono(-m.coef, m.facs, m.extra, m.delta + [(v, t)]))
+                return out
         if k == z3.Z3_OP_MUL:
             acc = [_Mono(z3.RealVal(1), [], [])]
             for c in ch:
@@ -807,7 +857,7 @@ def _poly(t, bset, cache, depth=0):
                 if len(acc) * len(p) > 400:
                     raise Outside("polynomial blow-up in Sigma body")
                 acc = [
-                    _Mono(_mulc(a.coef, b.coef), a.facs + b.facs, a.extra + b.extra)
+                    _Mono(_mulc(a.coef, b.coef), a.facs + b.facs, a.extra + b.extra, a.delta + b.delta)
                     for a in acc
                     for b in p
                 ]
@@ -816,11 +866,11 @@ def _poly(t, bset, cache, depth=0):
             num, den = ch
             if not _contains(den, bset, cache):
                 return [
-                    _Mono(m.coef / den, m.facs, m.extra) for m in _poly(num, bset, cache, depth + 1)
+                    _Mono(m.coef / den, m.facs, m.extra, m.delta) for m in _poly(num, bset, cache, depth + 1)
                 ]
             inv = z3.RealVal(1) / den
             return [
-                _Mono(m.coef, m.facs + [inv], m.extra) for m in _poly(num, bset, cache, depth + 1)
+                _Mono(m.coef, m.facs + [inv], m.extra, m.delta) for m in _poly(num, bset, cache, depth + 1)
             ]
         if k == z3.Z3_OP_UNINTERPRETED and t.decl().name() in SUMDEFS_BY_NAME:
             # inner Sigma depending on an outer bound variable: flatten
@@ -839,7 +889,7 @@ def _poly(t, bset, cache, depth=0):
                     raise Outside("inner Sigma range depends on outer bound variable")
             inner_ids = bset | {v.get_id() for v, _, _ in newb}
             ms = _poly(kern, inner_ids, {}, depth + 1)
-            return [_Mono(m.coef, m.facs, m.extra + newb) for m in ms]
+            return [_Mono(m.coef, m.facs, m.extra + newb, m.delta) for m in ms]
         if k == z3.Z3_OP_TO_REAL:
             pass
     return [_Mono(z3.RealVal(1), [t], [])]
@@ -876,6 +926,7 @@ def make_sum(var, lo, hi, body):
     var: z3 Int constant (bound), lo/hi: z3 Int terms, body: z3 real/int term."""
     bset = {var.get_id()}
     cache = {}
+    body = z3.simplify(body, som=False)
     monos = _poly(body, bset, cache)
     total = None
     for m in monos:
@@ -888,6 +939,33 @@ def make_sum(var, lo, hi, body):
 
 def _sum_mono(var, lo, hi, m):
     bvars = [(var, lo, hi)] + list(m.extra)
+    if m.delta:
+        # eliminate a bound variable fixed by a Kronecker delta (WS.sum_delta)
+        (v, t) = m.delta[0]
+        rest = m.delta[1:]
+        ent = [b for b in bvars if b[0].get_id() == v.get_id()]
+        if ent:
+            (_, l, h) = ent[0]
+            others = [b for b in bvars if b[0].get_id() != v.get_id()]
+            guard = z3.If(z3.And(t >= l, t < h), z3.RealVal(1), z3.RealVal(0))
+            facs = [z3.substitute(f, (v, t)) for f in m.facs]
+            rest = [(dv, z3.substitute(dt, (v, t))) for dv, dt in rest]
+            others = [(ov, z3.substitute(ol, (v, t)), z3.substitute(oh, (v, t))) for ov, ol, oh in others]
+            oset = {ov.get_id() for ov, _, _ in others}
+            cache = {}
+            coef = _mulc(m.coef, guard)
+            keep = []
+            for f in facs:
+                if _contains(f, oset, cache):
+                    keep.append(f)
+                else:
+                    coef = _mulc(coef, f)
+            if not others:
+                if rest:
+                    raise Outside("delta on a non-bound variable")
+                return coef
+            (nv, nl, nh) = others[0]
+            return _sum_mono(nv, nl, nh, _Mono(coef, keep, others[1:], rest))
     if not m.facs:
         # constant kernel: coef * number of index tuples
         cnt = None
@@ -1079,7 +1157,7 @@ def _instantiate(app, fresh):
     return kern, rng
 
 
-def sum_match_axioms(terms, hyps, budget_ms=1500):
+def sum_match_axioms(terms, hyps, budget_ms=700):
     """WS.sum_congr / WS.sum_comm instances: two Sigma atoms whose ranges coincide and whose
     kernels are pointwise equal on the range (possibly after permuting the bound
     variables) are equal."""
@@ -1136,9 +1214,22 @@ def sum_match_axioms(terms, hyps, budget_ms=1500):
     return ax, used
 
 
-def prove(hyps, goal, timeout_ms=20000, extra_axioms=(), nonneg=True):
-    """returns (status, solver, time_s, model_or_None, lemmas_used)"""
+def _z3_check(forms, goal, timeout_ms):
+    s = z3.Solver()
+    s.set("timeout", int(timeout_ms))
+    for a in forms:
+        s.add(a)
+    s.add(z3.Not(goal))
+    return s.check(), s
+
+
+def prove(hyps, goal, timeout_ms=20000, extra_axioms=(), nonneg=True, use_cvc5=None):
+    """staged portfolio; returns (status, solver, time_s, model_or_None, lemmas_used)"""
     t0 = time.time()
+    if z3.is_true(goal):
+        return "proved", "trivial", 0.0, None, []
+    if use_cvc5 is None:
+        use_cvc5 = os.environ.get("VERIF_TIER", "quick") == "thorough"
     base = list(PI_AXIOMS) + list(hyps) + list(extra_axioms)
     lem_used = []
     sax = []
@@ -1146,37 +1237,94 @@ def prove(hyps, goal, timeout_ms=20000, extra_axioms=(), nonneg=True):
         sax, lem_used = sum_axioms(base + [goal], base)
     allf = base + sax
     fax = fn_axioms(allf + [goal])
-    s = z3.Solver()
-    s.set("timeout", timeout_ms)
-    for a in allf + fax:
-        s.add(a)
-    s.add(z3.Not(goal))
-    r = s.check()
-    dt = time.time() - t0
+    # stage 1: plain, short
+    r, s = _z3_check(allf + fax, goal, min(3000, timeout_ms))
     if r == z3.unsat:
-        return "proved", "z3", dt, None, lem_used
-    # not proved outright: add Sigma congruence / Fubini instances and retry
+        return "proved", "z3", time.time() - t0, None, lem_used
+    model = s.model() if r == z3.sat else None
+    # stage 2: Sigma congruence / Fubini instances
     max_, mused = sum_match_axioms(base + [goal], base)
     if max_:
-        lem_used = lem_used + mused
+        lem_used = sorted(set(lem_used + mused))
         allf = allf + max_
-        s = z3.Solver()
-        s.set("timeout", timeout_ms)
-        for a in allf + fax:
-            s.add(a)
-        s.add(z3.Not(goal))
-        r = s.check()
-        dt = time.time() - t0
+        r, s = _z3_check(allf + fax, goal, min(3000, timeout_ms))
         if r == z3.unsat:
-            return "proved", "z3", dt, None, sorted(set(lem_used))
+            return "proved", "z3", time.time() - t0, None, lem_used
+        model = s.model() if r == z3.sat else None
     if r == z3.sat:
-        return "refuted", "z3", dt, s.model(), lem_used
-    # second attempt: cvc5 through SMT-LIB text
+        return "refuted", "z3", time.time() - t0, model, lem_used
+    # stage 3: quantifier-free purified attempt (nonlinear real arithmetic)
+    if prove_qf(allf + fax, goal, min(10000, timeout_ms)):
+        return "proved", "z3-qf", time.time() - t0, None, lem_used
+    # stage 4: plain, long
+    r, s = _z3_check(allf + fax, goal, timeout_ms)
+    if r == z3.unsat:
+        return "proved", "z3", time.time() - t0, None, lem_used
+    if r == z3.sat:
+        return "refuted", "z3", time.time() - t0, s.model(), lem_used
+    # stage 5: cvc5 through SMT-LIB text
+    if not use_cvc5:
+        return "unknown", "z3", time.time() - t0, None, lem_used
     st = _cvc5_check(s, timeout_ms)
     dt = time.time() - t0
     if st == "unsat":
         return "proved", "cvc5", dt, None, lem_used
     return "unknown", "z3+cvc5", dt, None, lem_used
+
+
+def _has_quant(t, cache):
+    k = t.get_id()
+    if k in cache:
+        return cache[k]
+    r = z3.is_quantifier(t) or any(_has_quant(c, cache) for c in t.children())
+    cache[k] = r
+    return r
+
+
+def _purify(t, table, cache):
+    """replace applications of uninterpreted functions by fresh constants (same term ->
+    same constant): a generalisation, so validity of the purified goal implies validity"""
+    k = t.get_id()
+    if k in cache:
+        return cache[k]
+    if z3.is_app(t) and t.decl().kind() == z3.Z3_OP_UNINTERPRETED and t.num_args() > 0:
+        key = t.sexpr()
+        if key not in table:
+            table[key] = z3.Const(fresh_name("u"), t.sort())
+        r = table[key]
+    elif z3.is_app(t) and t.num_args() > 0:
+        r = t.decl()(*[_purify(c, table, cache) for c in t.children()])
+    else:
+        r = t
+    cache[k] = r
+    return r
+
+
+def prove_qf(hyps, goal, timeout_ms=10000):
+    """fallback for nonlinear real goals: quantifier-free hypotheses only, uninterpreted
+    applications purified, then z3's nlsat-based solver"""
+    qc = {}
+    qf = [h for h in hyps if not _has_quant(h, qc)]
+    table, cache = {}, {}
+    fs = [_purify(h, table, cache) for h in qf] + [z3.Not(_purify(goal, table, cache))]
+    for tac in ("qfnra", "default"):
+        if tac == "default":
+            s = z3.Solver()
+        else:
+            try:
+                s = z3.Then("simplify", "purify-arith", "qfnra-nlsat").solver()
+            except Exception:
+                continue
+        s.set("timeout", int(timeout_ms))
+        for f in fs:
+            s.add(f)
+        try:
+            r = s.check()
+        except Exception:
+            continue
+        if r == z3.unsat:
+            return True
+    return False
 
 
 def _cvc5_check(solver, timeout_ms):
